@@ -6,12 +6,16 @@ package projgen
 
 import (
 	"fmt"
+	"regexp"
 	"sort"
 	"strings"
 
 	"github.com/vektah/gqlparser/v2"
 	"github.com/vektah/gqlparser/v2/ast"
 )
+
+// an initialism of gqlgen's default list spelled in non-upper-case form at a word boundary (Url, Id, Api, ...)
+var c17ReLowerInitialism = regexp.MustCompile(`(Url|Id|Api|Http|Json|Xml|Sql|Uuid)([A-Z_0-9]|$)|^(uuid|url|api|http)_`)
 
 // C17CheckOccurs loads the SDL files of p with gqlparser and checks the
 // occurrence of every selected feature.  The returned list names the features
@@ -303,6 +307,46 @@ func C17CheckOccurs(p *C17Project) ([]string, error) {
 	}
 	if row.B("idInitialism") && !strings.Contains(all, "userId") {
 		chk(fmt.Errorf("feature idInitialism selected but no initialism name occurs"))
+	}
+	// a non-root object whose Go name differs from its GraphQL name AND that has a resolver field
+	renamedWithResolver := func(renamed func(string) bool) bool {
+		for tn, fs := range p.ResolverFields {
+			d := sch.Types[tn]
+			if d != nil && d.Kind == ast.Object && len(fs) > 0 && renamed(tn) && d != sch.Query && d != sch.Mutation && d != sch.Subscription {
+				return true
+			}
+		}
+		return false
+	}
+	if row.B("idInitialism") {
+		if !renamedWithResolver(func(n string) bool { return c17ReLowerInitialism.MatchString(n) }) {
+			chk(fmt.Errorf("feature idInitialism selected but no object type with a non-upper-case initialism in its name has a resolver field"))
+		}
+		found["renamedTypeWithResolver:initialism"] = true
+	}
+	if row.B("idUnderscore") {
+		if !renamedWithResolver(func(n string) bool { return strings.Contains(n, "_") }) {
+			chk(fmt.Errorf("feature idUnderscore selected but no object type with an underscore in its name has a resolver field"))
+		}
+		found["renamedTypeWithResolver:underscore"] = true
+	}
+	if row.B("handInModel") {
+		if d := sch.Types["HandKept"]; d == nil {
+			chk(fmt.Errorf("feature handInModel selected but the type HandKept does not occur"))
+		} else if _, ok := p.Files[func() string { dir, _ := c17ModelPkg(row); return dir }()+"/handkept.go"]; !ok {
+			chk(fmt.Errorf("feature handInModel selected but the hand-written model is not in the model output package"))
+		}
+		found["handInModel"] = true
+	}
+	if row.B("autobindModel") {
+		dir, _ := c17ModelPkg(row)
+		if !strings.Contains(p.Files["gqlgen.yml"], "/"+dir+"\"\n") || !strings.Contains(p.Files["gqlgen.yml"], "autobind:") {
+			chk(fmt.Errorf("autobindModel selected but gqlgen.yml does not list the model output package under autobind"))
+		}
+		if _, ok := p.Files[dir+"/doc.go"]; !ok {
+			chk(fmt.Errorf("autobindModel selected but the model output package holds no hand-written Go file"))
+		}
+		found["autobind:modelOutputPackage"] = true
 	}
 	if row.B("idEnumClash") {
 		chk(need("idEnumClash", "enumClash"))
